@@ -325,6 +325,10 @@ func headerWritesIn(p *Prog, fn *ssa.Function, bufPrm ssa.Value, res *sccpResult
 		if b, sl, pr := headerPuts(p, fn); b != nil {
 			return b, sl, pr
 		}
+		// or a struct declared in wire order and packed by one binary.Write
+		if b, sl, pr := headerStruct(p, fn, rec); b != nil {
+			return b, sl, pr
+		}
 		// or a byte slice grown by append(header, getbytes.FromX(v)...)
 		if L := recordLayout(fn); L.unknown == "" && len(L.slots) > 0 && L.host == fn && L.final != nil {
 			off := 0
@@ -656,6 +660,121 @@ func unrollArrayLoop(w *ssa.Call, v ssa.Value) ([]ssa.Value, ssa.Instruction) {
 		}
 	}
 	return elems, iff
+}
+
+// headerStruct extracts the layout of a header that is a local struct, declared in wire order,
+// written with a single encoding/binary.Write(buf, binary.LittleEndian, &hdr): binary.Write packs
+// the fields in declaration order without padding.  A field's value is what is assigned to it: the
+// one assignment, or a choice between an assignment under a test and the one before it; a field
+// that is never assigned is zero.
+func headerStruct(p *Prog, fn *ssa.Function, recv ssa.Value) (buf ssa.Value, slots []codeSlot, problems []string) {
+	var w *ssa.Call
+	Instrs(fn, func(in ssa.Instruction) {
+		if c, ok := in.(*ssa.Call); ok && IsCallTo(in, "encoding/binary.Write") && len(c.Call.Args) == 3 {
+			w = c
+		}
+	})
+	if w == nil {
+		return nil, nil, nil
+	}
+	data := w.Call.Args[2]
+	if mi, ok := data.(*ssa.MakeInterface); ok {
+		data = mi.X
+	}
+	var al *ssa.Alloc
+	switch x := data.(type) {
+	case *ssa.Alloc:
+		al = x
+	case *ssa.UnOp:
+		al, _ = x.X.(*ssa.Alloc)
+	}
+	if al == nil || derefStruct(al.Type()) == nil {
+		return nil, nil, nil
+	}
+	buf = w.Call.Args[0]
+	if mi, ok := buf.(*ssa.MakeInterface); ok {
+		buf = mi.X
+	}
+	if ord, ok := w.Call.Args[1].(*ssa.MakeInterface); ok {
+		if ld, ok := ord.X.(*ssa.UnOp); ok {
+			if g, ok := ld.X.(*ssa.Global); !ok || g.Name() != "LittleEndian" {
+				problems = append(problems, "the header struct is written with a byte order other than binary.LittleEndian at "+p.InstrPos(w))
+			}
+		}
+	}
+	if InLoop(w) {
+		problems = append(problems, "a header write is inside a loop at "+p.InstrPos(w))
+	}
+	st := derefStruct(al.Type())
+	sizes := types.SizesFor("gc", "amd64")
+	off := 0
+	for i := 0; i < st.NumFields(); i++ {
+		ft := st.Field(i).Type()
+		bt, isBasic := ft.Underlying().(*types.Basic)
+		if !isBasic {
+			problems = append(problems, "the header struct has a field that is not a fixed-size number ("+st.Field(i).Name()+"): the packed layout is not extracted")
+			return buf, nil, problems
+		}
+		size := int(sizes.Sizeof(ft))
+		isFloat := bt.Info()&types.IsFloat != 0
+		// the assignments to this field that can reach the write
+		var sts []*ssa.Store
+		for _, ref := range *al.Referrers() {
+			fa, ok := ref.(*ssa.FieldAddr)
+			if !ok || fa.Field != i {
+				continue
+			}
+			for _, r2 := range *fa.Referrers() {
+				if s2, ok := r2.(*ssa.Store); ok && s2.Addr == ssa.Value(fa) && InstrReaches(s2, w) {
+					sts = append(sts, s2)
+				}
+			}
+		}
+		prov, plain := "const 0 (never assigned)", false
+		var at ssa.Instruction = w
+		switch len(sts) {
+		case 0:
+		case 1:
+			prov, plain = provenance(sts[0].Val, recv)
+			at = sts[0]
+		case 2:
+			// one assignment on every way, one under a test after it
+			a, b := sts[0], sts[1]
+			if InstrDominates(b, a) {
+				a, b = b, a
+			}
+			prov, plain = "two assignments", false
+			if InstrDominates(a, w) && InstrDominates(a, b) {
+				for _, ct := range controllingIfs(b.Block()) {
+					tv, fv := b.Val, a.Val
+					if ct.Branch == 1 {
+						tv, fv = fv, tv
+					}
+					prov, plain = selectForm(ct.If.Cond, tv, fv, recv)
+					break
+				}
+			}
+			at = b
+		default:
+			prov, plain = "several assignments", false
+		}
+		// a narrowing conversion below the slot's width loses bytes
+		if len(sts) == 1 {
+			for cv := sts[0].Val; ; {
+				c, ok := cv.(*ssa.Convert)
+				if !ok {
+					break
+				}
+				if isIntLike(c.X.Type()) && isIntLike(c.Type()) && intSize(c.Type()) < intSize(c.X.Type()) && intSize(c.Type()) < int64(size) {
+					plain = false
+				}
+				cv = c.X
+			}
+		}
+		slots = append(slots, codeSlot{off, size, isFloat, prov, plain, at})
+		off += size
+	}
+	return buf, slots, problems
 }
 
 // headerPuts extracts the layout of a header built in a fixed-length byte slice with
@@ -1099,6 +1218,22 @@ func c14Frames(p *Prog, r *Report, fn *ssa.Function, buf ssa.Value, name, payloa
 			}
 			if _, isDbg := in.(*ssa.DebugRef); isDbg {
 				continue
+			}
+			// handed, as an io.Writer, to encoding/binary.Write only
+			if mi, isMI := in.(*ssa.MakeInterface); isMI {
+				onlyBW := true
+				for _, r2 := range *mi.Referrers() {
+					if c2, isCall := r2.(*ssa.Call); isCall && IsCallTo(c2, "encoding/binary.Write") && len(c2.Call.Args) > 0 && c2.Call.Args[0] == ssa.Value(mi) {
+						continue
+					}
+					if _, isDbg := r2.(*ssa.DebugRef); isDbg {
+						continue
+					}
+					onlyBW = false
+				}
+				if onlyBW {
+					continue
+				}
 			}
 			// handed to a module helper that only writes to it
 			if call, isCall := in.(*ssa.Call); isCall {
